@@ -5,6 +5,7 @@ CONSTANTS
   Scripts = {"s1"}
   Classes = {"k1"}
   BlockHandles = {"h1"}
+  ZeroHandles = {}
   FixedHandles = {"g1"}
   RegSeq <- RegK1
   OnSeqs <- OnSeqsCore
